@@ -126,4 +126,49 @@ def failingOn {α β : Type} [Inhabited α] [Inhabited β] (bad : Batch α → B
     (g : List α → List (List β)) (kinds : List Kind) (b : Batch α) : Except ErrKind (Batch β) :=
   if bad b then .error .runtime else .ok (flatMapRows g kinds b)
 
+/-! ## functions with private state
+
+A user function may keep state between calls (a counter, a cache, a model being updated): the result
+of a call then depends on the calls made before it — also on the ones that raised. -/
+
+/-- `callMap` for a function with state `σ`: the state is threaded through the calls in order; a
+call that raises may have changed it -/
+def callMapS {α β σ : Type} (G : σ → Batch α → Except ErrKind (Batch β) × σ) :
+    σ → List (Pull (Batch α)) → List (Pull (Batch β))
+  | _, [] => []
+  | s, .item b :: rest =>
+    match G s b with
+    | (.ok o, s') => .item o :: callMapS G s' rest
+    | (.error _, s') => .raise .value :: callMapS G s' rest
+  | s, .raise e :: rest => .raise e :: callMapS G s rest
+
+/-- `treeFnGen` for a function with state, started in state `s0` -/
+def treeFnGenS {α β σ : Type} (skip : Bool) (fnBatch batch nin nout : Nat)
+    (G : σ → Batch α → Except ErrKind (Batch β) × σ) (s0 : σ) (bs : List (Batch α)) : Run β :=
+  let calls := callMapS G s0 (run fnBatch nin none bs).pulls
+  runEv batch nout none (if skip then ignoreErr calls else calls)
+
+/-- the results of the calls that do not raise, in order, the state threaded through ALL calls -/
+def okCallsS {α β σ : Type} (G : σ → Batch α → Except ErrKind (Batch β) × σ) :
+    σ → List (Batch α) → List (Batch β)
+  | _, [] => []
+  | s, g :: gs =>
+    match G s g with
+    | (.ok o, s') => o :: okCallsS G s' gs
+    | (.error _, s') => okCallsS G s' gs
+
+/-- the function's state after it has been called on the groups `gs` in order -/
+def stateAfter {α β σ : Type} (G : σ → Batch α → Except ErrKind (Batch β) × σ) :
+    σ → List (Batch α) → σ
+  | s, [] => s
+  | s, g :: gs => stateAfter G (G s g).2 gs
+
+/-- the stateful sample function of the correspondence (`callno`): the state counts the calls made so
+far (failing ones included); a call raises on a group satisfying `bad`, otherwise applies the
+row-wise flat-map `g k` where `k` is the number of earlier calls -/
+def countingOn {α β : Type} [Inhabited α] [Inhabited β] (bad : Batch α → Bool)
+    (g : Nat → List α → List (List β)) (kinds : List Kind) (k : Nat) (b : Batch α) :
+    Except ErrKind (Batch β) × Nat :=
+  (if bad b then .error .runtime else .ok (flatMapRows (g k) kinds b), k + 1)
+
 end MlModel.Rebatch
